@@ -1368,7 +1368,8 @@ class TaskPool:
         # Tasks spawned since the runahead limit was last applied (when the
         # last active task finished, or as the next instance of a task that
         # has just been released) are still runahead-limited: if they lie
-        # within the up to date limit they are about to be released.
+        # within the up to date limit they are about to be released, and can
+        # run if their prerequisites are satisfied.
         self.compute_runahead()
         limit = self.runahead_limit_point
         if any(
@@ -1381,9 +1382,11 @@ class TaskPool:
                 # (avoid waiting pre-spawned absolute-triggered tasks:)
                 and itask.prereqs_are_satisfied()
             ) or (
-                itask.state.is_runahead
+                itask.state(TASK_STATUS_WAITING)
+                and itask.state.is_runahead
                 and limit is not None
                 and itask.point <= limit
+                and itask.prereqs_are_satisfied()
             ) for itask in self.get_tasks()
         ):
             return False
